@@ -133,20 +133,20 @@ def run_items(items, job):
             detail["stdin"] = o.fail_tuples()[:10]
         # API
         try:
-            r1 = api().scan_string(doc)
+            r1 = app.guarded(lambda: api().scan_string(doc))
             R.count("api_calls")
             got = [(f.line_number, f.column_number, f.rule_id, f.rule_description, f.extra_error_information or "") for f in r1.scan_failures]
             if got != ref:
                 v.add("api-scan_string-vs-file")
                 detail["scan_string"] = got[:10]
-            r2 = api().scan_path(p)
+            r2 = app.guarded(lambda: api().scan_path(p))
             R.count("api_calls")
             got = [(f.line_number, f.column_number, f.rule_id, f.rule_description, f.extra_error_information or "") for f in r2.scan_failures]
             if got != ref:
                 v.add("api-scan_path-vs-file")
             if verbose:
                 lvl = ("info", "debug", "warning")[idx % 3]
-                r3 = api(lvl).scan_string(doc)
+                r3 = app.guarded(lambda: api(lvl).scan_string(doc), 60.0)
                 R.count("api_calls")
                 R.count("api_verbose_log_calls")
                 got = [(f.line_number, f.column_number, f.rule_id, f.rule_description, f.extra_error_information or "") for f in r3.scan_failures]
@@ -155,6 +155,8 @@ def run_items(items, job):
         except PyMarkdownApiException as e:
             v.add("api-exception")
             detail["api_exception"] = str(e)[:200]
+        except app.ApiWatchdog:
+            R.skip("api-watchdog")
         # real processes (subset: process start-up is 0.6 s)
         if idx % 8 == 0:
             rc, out, err = app.cli(["--log-level", "CRITICAL"] + sel_args + ["scan", "d.md"], cwd=sb.cwd)
@@ -185,7 +187,7 @@ def run_items(items, job):
         of, fixed = app.fix_text(sb, doc, name="e.md", enable=sel_e or None, disable=sel_d or None, extra=sch_args)
         if not app.fix_error_kind(of) and fixed is not None:
             try:
-                fr = api().fix_string(doc)
+                fr = app.guarded(lambda: api().fix_string(doc))
                 R.count("api_calls")
                 want = sb.read("e.md").decode("utf-8")
                 # fix_string hands back text read in text mode; compare modulo the platform's newline translation only
@@ -197,6 +199,8 @@ def run_items(items, job):
                     v.add("fix_string-flag-vs-fix-file")
             except PyMarkdownApiException:
                 v.add("fix_string-exception")
+            except app.ApiWatchdog:
+                R.skip("api-watchdog")
             j = (idx * 5 + 2) % len(DIAG)
             sb.write_bytes("g.md", doc.encode("utf-8"))
             og = app.invoke(list(DIAG[j]) + sel_args + ["fix", os.path.join(sb.cwd, "g.md")])
